@@ -410,3 +410,142 @@ def trace_term(variant, run):
 def unpickled(o):
     """what the backend hands back: a deserialised copy carrying the recorded hash"""
     return pickle.loads(pickle.dumps(o))
+
+
+# ---------------------------------------------------------------------------- trees with symbolic links
+# (outside the Coq model, which has no links: judged on the implementation only.)  A member is whatever
+# iterating the Dir / FileSet yields; every member must contribute to the hash.
+T0 = 1_500_000_000
+POPULATIONS = {
+    "plain": ({"d0/f0": b"a", "d0/d2/f1": b"b"}, []),
+    "linked_subdir": ({"d5/f0": b"s0", "d5/f1": b"s1", "d0/f0": b"a", "d0/d2/f1": b"b"}, [("d0/d9", "../d5")]),
+    "linked_file": ({"d5/f0": b"s0", "d0/f0": b"a"}, [("d0/f5", "../d5/f0")]),
+    "outside_nested": ({"d5/f0": b"s0", "d6/f1": b"t1", "d0/f0": b"a"}, [("d5/d8", "../d6"), ("d0/d9", "../d5")]),
+    "broken_links": ({"d0/f0": b"a", "d0/d2/f1": b"b"}, [("d0/f7", "../missing"), ("d0/d7", "../missingdir")]),
+}
+TREE_VALUES = [("Dir", "FBase", 2, "d0"), ("ContentDir", "FContent", 2, "d0"), ("FileSet", "FBase", 1, "d0/**"),
+               ("ContentFileSet", "FContent", 1, "d0/**"), ("FileSet", "FBase", 1, "d0/*")]
+MUTATIONS = ["rewrite", "truncate", "delete", "recreate"]
+
+
+def build_population(name):
+    """(re)create the tree from scratch in the current directory, every file with mtime T0"""
+    files, links = POPULATIONS[name]
+    for d in ("d0", "d5", "d6", "d3"):
+        if os.path.islink(d):
+            os.remove(d)
+        shutil.rmtree(d, ignore_errors=True)
+    for path, data in files.items():
+        os.makedirs(os.path.dirname(path), exist_ok=True)
+        with open(path, "wb") as f:
+            f.write(data)
+        os.utime(path, (T0, T0))
+    for link, target in links:
+        os.makedirs(os.path.dirname(link), exist_ok=True)
+        os.symlink(target, link)
+
+
+def tree_value(cname, fam, idx, arg):
+    return classes()[fam][idx](arg)
+
+
+def mutate_member(path, how):
+    """change one member through the path under which the value lists it; False if not applicable"""
+    if how == "rewrite":
+        with open(path, "rb") as f:
+            old = f.read()
+        with open(path, "wb") as f:
+            f.write(old + b"!!")
+    elif how == "truncate":
+        if os.path.getsize(path) == 0:
+            return False
+        open(path, "wb").close()
+    elif how == "delete":
+        os.remove(path)
+    elif how == "recreate":
+        with open(path, "rb") as f:
+            old = f.read()
+        target = os.readlink(path) if os.path.islink(path) else None
+        os.remove(path)
+        if target is not None:
+            os.symlink(target, path)
+            path = os.path.realpath(path)
+        with open(path, "wb") as f:
+            f.write(old)
+        os.utime(path, (T0 + 100, T0 + 100))
+    return True
+
+
+def check_member(pop, value, member, how):
+    """one (tree, value, member, mutation): returns None or a description of the failure"""
+    build_population(pop)
+    v = tree_value(*value)
+    h0 = v.hash
+    rec = unpickled(v)
+    listed = sorted(f.path for f in tree_value(*value))
+    if member not in listed:
+        return None
+    if not mutate_member(member, how):
+        return None
+    content_same = how == "recreate" and value[1] == "FContent"
+    try:
+        h1 = tree_value(*value).hash
+        valid = rec.is_valid()
+    except Exception as e:  # noqa
+        return f"hashing / is_valid raised {e!r} after {how} of {member}"
+    if content_same:
+        if h1 != h0 or not valid:
+            return f"{value[0]}({value[3]}): {member} recreated with the same bytes but the content hash changed"
+        return None
+    if h1 == h0:
+        return f"{value[0]}({value[3]}) lists {member} but its hash is unchanged after {how} of that member"
+    if valid:
+        return f"{value[0]}({value[3]}) lists {member} but is_valid() is still True after {how} of that member"
+    return None
+
+
+def tree_checks(pops=None, values=None):
+    """all members x mutations; yields (pop, value, member, how, failure)"""
+    with tempcwd("rv_fvl_"):
+        for pop in (pops or POPULATIONS):
+            for value in (values or TREE_VALUES):
+                build_population(pop)
+                try:
+                    members = sorted(f.path for f in tree_value(*value))
+                    tree_value(*value).hash
+                except Exception as e:  # noqa: the unchanged tree lists and hashes all of these without raising
+                    yield pop, value, None, None, f"listing / hashing raised {e!r}"
+                    continue
+                for m in members:
+                    for how in MUTATIONS:
+                        yield pop, value, m, how, check_member(pop, value, m, how)
+
+
+def tree_fresh_checks():
+    """C30 on such trees: after copy_to / stage / write the cached hash equals a fresh one.
+    yields (pop, what, failure)"""
+    from redun.file import Dir, File, StagingDir
+    with tempcwd("rv_fvl_"):
+        for pop in POPULATIONS:
+            build_population(pop)
+            dst = Dir("d3")
+            dst.hash
+            Dir("d0").copy_to(dst)
+            yield pop, "Dir.copy_to", None if dst.hash == Dir("d3").hash else "destination hash stale after Dir.copy_to"
+            build_population(pop)
+            loc = Dir("d3")
+            loc.hash
+            got = StagingDir(loc, Dir("d0")).stage()
+            yield pop, "StagingDir.stage", None if got.hash == Dir("d3").hash else "local hash stale after stage()"
+            build_population(pop)
+            members = sorted(f.path for f in Dir("d0"))
+            d = Dir("d0")
+            h = d.hash
+            f = File(members[-1])
+            f.write("written through redun")
+            bad = None
+            if f.hash != File(members[-1]).hash:
+                bad = "File hash stale after write"
+            elif Dir("d0").hash == h or d.is_valid():
+                bad = f"Dir(d0) unchanged / still valid after File({members[-1]}).write"
+            yield pop, "File.write below the Dir", bad
